@@ -310,6 +310,12 @@ func flushBuf(pos int, obuf []byte, normalizeWord bool, ld *dictionary) tokenID 
 	// escape sequences can occur anywhere in the string, not just the beginning
 	// so always attempt to unescape the word's content.
 	token = html.UnescapeString(token)
+	if normalizeWord {
+		// The buffer was lower-cased rune by rune, before the escape sequences
+		// were resolved; a character reference can still produce an upper-case
+		// letter ("&#65;bc", "&Eacute;t&eacute;").
+		token = strings.ToLower(token)
+	}
 
 	clean := normalizeToken(token)
 
